@@ -833,6 +833,7 @@ type batchIterator struct {
 	m     map[string][]byte
 	start []byte
 	limit []byte
+	lower []byte // lower bound of the iterator's range: Seek and Reset never move start below it
 }
 
 func newBatchIterator(b *batch, start, limit []byte) *batchIterator {
@@ -843,6 +844,7 @@ func newBatchIterator(b *batch, start, limit []byte) *batchIterator {
 		m:     make(map[string][]byte),
 		start: start,
 		limit: limit,
+		lower: start,
 	}
 	for k, v := range items {
 		it.keys = append(it.keys, k)
@@ -854,8 +856,17 @@ func newBatchIterator(b *batch, start, limit []byte) *batchIterator {
 	return it
 }
 
+// from returns the position a Seek or Reset to key starts at: key itself, or the lower bound of
+// the iterator's range when key lies below it (as the underlying leveldb iterator does).
+func (bi *batchIterator) from(key []byte) []byte {
+	if bytes.Compare(key, bi.lower) < 0 {
+		return bi.lower
+	}
+	return key
+}
+
 func (bi *batchIterator) Seek(seekKey []byte) bool {
-	bi.start = seekKey
+	bi.start = bi.from(seekKey)
 	for i, key := range bi.keys {
 		if bytes.Compare([]byte(key), bi.start) >= 0 && bytes.Compare([]byte(key), bi.limit) < 0 {
 			bi.ptr = i
@@ -899,7 +910,7 @@ func (bi *batchIterator) Value() []byte {
 
 func (bi *batchIterator) Reset(start []byte) {
 	bi.ptr = -1
-	bi.start = start
+	bi.start = bi.from(start)
 }
 
 // ------------------ levelIterator -------------------- //
